@@ -15,6 +15,7 @@ Ev == TraceLog[l]
 Good(e, exp) == /\ e.res.crash = ""
                 /\ e.res.ok = exp.ok
                 /\ exp.ok => (e.res.shape = exp.shape /\ e.res.elems = exp.elems)
+                /\ (exp.ok /\ "dtype" \in DOMAIN exp) => e.res.dtype = exp.dtype
 
 TInit == l = 1 /\ bad = <<>>
 TOp == /\ l <= Len(TraceLog)
